@@ -250,7 +250,7 @@ Definition store_failed (X : list fname) (c : cfg) (w : wal) (ls : list log) (e 
      (last_index (st_segs w) (st_tail w) =? 0) && negb (l_index l0 =? si_base ti) = true /\
      app_facts tw1 ls /\
      rc = ROk /\ (dm = e_disk ec1 \/ dm = apply_act (e_disk ec1) (append_act tw1 ls)) /\
-     pfx ec ec' dm /\
+     pfx ec ec' dm /\ pfx ec ec' (e_disk ec1) /\ lookup (ws_name tw1) (dk_files (e_disk e)) = None /\
      (* the old tail was deleted, or (deletions fail) it stays *)
      (drel (rem (name_of ti) X) (e_disk e') (del_disk [name_of ti] dm) \/ drel X (e_disk e') dm)).
 
@@ -323,6 +323,8 @@ Proof.
         split; [exact Ecl|]. split; [exact Efl|]. split; [exact Ereset|]. split; [exact Gf|]. split; [reflexivity|].
         split; [left; reflexivity|].
         split; [eapply pfx_more; [apply pfx_end; apply Hsh1|eapply aext_trans; [apply Hsh2|exact D2']]|].
+        split; [eapply pfx_more; [apply pfx_end; apply Hsh1|eapply aext_trans; [apply Hsh2|exact D2']]|].
+        split; [rewrite Ctail in Et; inversion Et; subst tw; exact Hl|].
         rewrite D4, G4. destruct (del_fails e2).
         -- right. apply B.
         -- left. unfold del_disk. cbn [fold_left]. apply drel_delete_stale. apply B.
@@ -331,6 +333,8 @@ Proof.
         split; [exact Ecl|]. split; [exact Efl|]. split; [exact Ereset|]. split; [exact Gf|]. split; [reflexivity|].
         split; [right; reflexivity|].
         split; [eapply pfx_shift; [apply Hsh1|]; eapply pfx_more; [exact G5|exact D2']|].
+        split; [eapply pfx_more; [apply pfx_end; apply Hsh1|eapply aext_trans; [apply Hsh2|exact D2']]|].
+        split; [rewrite Ctail in Et; inversion Et; subst tw; exact Hl|].
         assert (G4' : drel X (e_disk e2) (apply_act (e_disk ec1) (append_act tw ls))) by (eapply drel_rem_weaken; exact G4).
         rewrite D4. destruct (del_fails e2).
         -- right. exact G4'.
